@@ -35,14 +35,21 @@ class A(Adapter):
     def configs(self):
         base = [cfg("n36a3", True, n=36, e=72, deg=5, a=3, k=4, tl=None), cfg("n12a2", True, n=12, e=18, deg=4, a=2, k=3, tl=None),
                 cfg("n20a4", n=20, e=35, deg=5, a=4, k=3, tl=None)]
-        return cross_tl(base, [1, 2, 3, 7])
+        out = cross_tl(base, [1, 2, 3, 7])
+        # the generator's route-buffer width (max_step) is a separate constructor argument: the time limit that counts
+        # is the environment's, also when the two differ
+        for tl, ms in ((3, 9), (7, 12)):
+            d = dict(base[1])
+            d.update(id=f"n12a2+tl{tl}+ms{ms}", tl=tl, ms=ms, quick=False, clock=True)
+            out.append(d)
+        return out
 
     def build(self, c):
         from jumanji.environments import MMST
         from jumanji.environments.routing.mmst.generator import SplitRandomGenerator
         tl = 70 if c.get("tl") is None else c["tl"]
         g = SplitRandomGenerator(num_nodes=c["n"], num_edges=c["e"], max_degree=c["deg"], num_agents=c["a"],
-                                 num_nodes_per_agent=c["k"], max_step=tl)
+                                 num_nodes_per_agent=c["k"], max_step=c.get("ms", tl))
         return MMST(generator=g, time_limit=tl)
 
     def time_limit(self, env, c):
